@@ -881,6 +881,28 @@ class Translator:
                     phis[lab].append((dst, t, inc)); ctx.vals[dst] = t
                     decls.append('%s %s;' % (em.ctype(t), ctx.lname(dst)))
         s.ctx = ctx; s.decls = decls; s.phis = phis; s.curfn = f.name
+        # pre-scan for the growth idiom  (size_t)((double)x * C)  with C in {1.25, 1.5, 2.0}: bit-blasting an IEEE multiplication
+        # costs more than the rest of a harness, while the expression equals exact integer arithmetic for x < 2^50 (asserted)
+        uses = {}; defs = {}
+        for lab, ins in blocks:
+            for ln in ins:
+                tk = toks[id(ln)]
+                st = 2 if len(tk) > 2 and tk[1][1] == '=' else 0
+                for k, v in tk[st:]:
+                    if k in ('name', 'qname') and v[0] == '%': uses[v] = uses.get(v, 0) + 1
+                if st == 2: defs[tk[0][1]] = tk
+        s.fp_skip = set(); s.fp_peep = {}
+        for name, tk in defs.items():
+            if tk[2][1] != 'fptoui' or tk[3][1] != 'double' or tk[4][0] not in ('name', 'qname'): continue
+            m = defs.get(tk[4][1])
+            if not m or m[2][1] != 'fmul' or uses.get(tk[4][1], 0) != 1: continue
+            ops = [t for t in m[3:] if t[1] not in FLAGS and t[1] != 'double' and t[1] != ',']
+            if len(ops) != 2 or ops[0][0] not in ('name', 'qname') or ops[1][0] != 'float': continue
+            cst = {'1.250000e+00': (5, 4), '1.500000e+00': (3, 2), '2.000000e+00': (2, 1)}.get(ops[1][1])
+            u = defs.get(ops[0][1])
+            if not cst or not u or u[2][1] != 'uitofp' or uses.get(ops[0][1], 0) != 1: continue
+            s.fp_skip.add(tk[4][1]); s.fp_skip.add(ops[0][1])
+            s.fp_peep[name] = (u[3:], cst)
         s.lp_selectors = {}
         for lab, ins in blocks:
             code.append('L_%s: ;' % cid('%' + lab))
@@ -977,6 +999,15 @@ class Translator:
             dst = p.next()[1]; p.next()
         op = p.next()[1]
         while op in ('tail', 'musttail', 'notail'): op = p.next()[1]
+        if dst is not None and dst in s.fp_skip:
+            return []
+        if dst is not None and dst in s.fp_peep:
+            utoks, (num, den) = s.fp_peep[dst]
+            x = ctx.tvalue(P(list(utoks)))          # "iN %x to double": tvalue stops before 'to'
+            while p.peek()[1] != 'to': p.next()
+            p.next(); t = p.type()
+            return ['__VX_ASSERT((uint64_t)%s < (1ULL << 50), "fp growth idiom: operand below 2^50 (integer rewrite exact)");' % x.c] + \
+                   s.define(dst, t, '(%s)(((uint64_t)%s * %dULL) / %dULL)' % (em.ctype(t), x.c, num, den))
         if op in BIN or op in SBIN:
             flags = set()
             while p.peek()[1] in FLAGS: flags.add(p.next()[1])
@@ -1261,6 +1292,11 @@ class Translator:
                 out.append('__CPROVER_assume(%s);' % args[0].c)
             elif name == '@__dynamic_cast':
                 out += s.define(dst, rt, '__vx_dynamic_cast(%s)' % ', '.join(a.c for a in args))
+            elif name in ('@memcpy', '@memmove', '@memset') and len(args) == 3:
+                # zero-length calls are skipped: a null / one-past pointer with length 0 is not reported (C library precondition only)
+                call = '%s((void*)%s, %s%s, %s)' % (fn, args[0].c, '' if name == '@memset' else '(const void*)', args[1].c, args[2].c)
+                out.append('if (%s) %s;' % (args[2].c, call))
+                if dst is not None: out += s.define(dst, rt, '(%s)%s' % (em.ctype(rt), args[0].c))
             else:
                 e = '%s(%s)' % (fn, ', '.join(a.c for a in args))
                 if dst is not None and not isinstance(em.resolve(rt), VoidT):
@@ -1289,9 +1325,9 @@ class Translator:
             return []
         if base.startswith(('memcpy.', 'memmove.')):
             fn = 'memmove' if base.startswith('memmove') else 'memcpy'
-            return ['%s((void*)%s, (const void*)%s, %s);' % (fn, args[0].c, args[1].c, args[2].c)]
+            return ['if (%s) %s((void*)%s, (const void*)%s, %s);' % (args[2].c, fn, args[0].c, args[1].c, args[2].c)]
         if base.startswith('memset.'):
-            return ['memset((void*)%s, %s, %s);' % (args[0].c, args[1].c, args[2].c)]
+            return ['if (%s) memset((void*)%s, %s, %s);' % (args[2].c, args[0].c, args[1].c, args[2].c)]
         if base == 'assume': return ['__CPROVER_assume(%s);' % args[0].c]
         if base.startswith('expect.'): return s.define(dst, rt, args[0].c)
         if base in ('trap', 'debugtrap'): return ['__VX_ASSERT(0, "llvm.trap executed"); __CPROVER_assume(0);']
